@@ -23,7 +23,9 @@ run_demo() {
   fi
 }
 echo "-- demo on clean tree:"; run_demo
-if ! git -C $d apply $src/patch.diff; then echo "PATCH DOES NOT APPLY"; exit 8; fi
+if ! git -C $d apply $src/patch.diff 2>/dev/null; then
+  if git -C $d apply -3 $src/patch.diff 2>/dev/null && ! git -C $d diff --name-only --diff-filter=U | grep -q .; then echo "(patch applied with 3-way merge)"; git -C $d reset -q; else echo "PATCH DOES NOT APPLY"; exit 8; fi
+fi
 (cd $d && go build ./... && go build -tags verif ./...) || { echo "DOES NOT BUILD"; exit 7; }
 echo "-- demo with the change:"; run_demo
 echo "-- baseline suite with the change:"
